@@ -525,14 +525,57 @@ ctl('c3-broadcastto-no-dedupe', 'C14', 'C3', SE,
 """, """		_ = isParticipantHandled
 """, 'BroadcastTo')
 ctl('c3-broadcastto-sender-served', 'C14', 'C3', SE,
-    """	for _, p := range participants {
+    """		p, ok := s.participants[id]
+		if !ok || p == sender {
+			continue
+		}
+""",
+    """		p, ok := s.participants[id]
+		if !ok {
+			continue
+		}
+""", 'BroadcastTo')
+ctl('j6-unknown-id-served', 'C14', 'C3', SE,
+    """		p, ok := s.participants[id]
+		if !ok || p == sender {
+			continue
+		}
+""",
+    """		p := s.participants[id]
 		if p == sender {
 			continue
 		}
+""", 'BroadcastTo', 'an id naming nobody in this session is dereferenced / served')
+BT_LOCKED = """	// Like Broadcast, deliver under the participant lock: a participant that
+	// has left the session must not be served from an earlier snapshot.
+	s.participantMutex.RLock()
+	defer s.participantMutex.RUnlock()
 
-		if _, ok""",
-    """	for _, p := range participants {
-		if _, ok""", 'BroadcastTo')
+	isParticipantHandled := make(map[uint32]struct{}, len(participantIds))
+	for _, id := range participantIds {
+		p, ok := s.participants[id]
+		if !ok || p == sender {
+			continue
+		}
+"""
+BT_SNAPSHOT = """	isParticipantHandled := make(map[uint32]struct{}, len(participantIds))
+	for _, p := range s.GetParticipantsByIDs(participantIds...) {
+		if p == sender {
+			continue
+		}
+"""
+for prop in ('C03', 'C14', 'C01'):
+    ctl('c3-broadcastto-from-snapshot-' + prop.lower(), prop, 'C3', SE, BT_LOCKED, BT_SNAPSHOT, 'BroadcastTo:delivers-under-lock',
+        'defect repaired in decbdf7: targeted delivery from a snapshot taken before the recipient left')
+ctl('c3-broadcast-from-snapshot', 'C03', 'C3', SE,
+    """func (s *Session) Broadcast(sender *Participant, protoMsg hwebsocket.ProtoMsg) {
+	s.participantMutex.RLock()
+	defer s.participantMutex.RUnlock()
+""",
+    """func (s *Session) Broadcast(sender *Participant, protoMsg hwebsocket.ProtoMsg) {
+	s.participantMutex.RLock()
+	s.participantMutex.RUnlock()
+""", 'Broadcast', 'the lock is dropped before the delivery loop')
 ctl('j6-recipient-resolution', 'C14', 'J6', SE,
     """		p, ok := s.participants[id]
 		if ok {
